@@ -15,7 +15,7 @@ pub const FLOORS: &[&str] = &[
     "pause_at_directive_break", "pause_at_runtime_break", "revisit_pause", "self_loop_revisit",
     "two_loop_revisit", "removed_breakpoint_passed", "resume:continue", "resume:step", "resume:si",
     "resume:so", "loc:abs", "loc:label", "loc:pc", "break_before_first", "break_after_last",
-    "break_doubled", "nondefault_origin", "trace_invariant_checked", "origin_below_statement_count",
+    "break_doubled", "nondefault_origin", "trace_invariant_checked", "origin_below_statement_count", "pause_at_break_outside_image",
 ];
 
 struct Loopy {
@@ -26,23 +26,29 @@ struct Loopy {
     labels: &'static [(&'static str, u16)],
     n: u16,
     class: &'static str,
+    /// offsets from the origin of addresses *outside* the assembled image which the program executes
+    outside: &'static [u16],
 }
 
 const LOOPY: &[Loopy] = &[
-    Loopy { class: "self_loop", stack: true, origin: 0x3000, n: 3, labels: &[("lp", 1), ("after", 2)],
+    Loopy { outside: &[], class: "self_loop", stack: true, origin: 0x3000, n: 3, labels: &[("lp", 1), ("after", 2)],
         src: "lea r6 lp\nlp jmp r6\nafter halt\n" },
-    Loopy { class: "self_loop", stack: false, origin: 0x6000, n: 4, labels: &[("lp", 2), ("top", 0)],
+    Loopy { outside: &[], class: "self_loop", stack: false, origin: 0x6000, n: 4, labels: &[("lp", 2), ("top", 0)],
         src: ".orig x6000\ntop and r0 r0 #0\nadd r0 r0 #-1\nlp brn lp\nhalt\n" },
-    Loopy { class: "two_loop", stack: true, origin: 0x3000, n: 5, labels: &[("lp", 2), ("done", 4)],
+    Loopy { outside: &[], class: "two_loop", stack: true, origin: 0x3000, n: 5, labels: &[("lp", 2), ("done", 4)],
         src: "and r0 r0 #0\nadd r0 r0 #4\nlp add r0 r0 #-1\nbrp lp\ndone halt\n" },
-    Loopy { class: "two_loop", stack: false, origin: 0x3000, n: 4, labels: &[("pa", 1), ("pb", 2)],
+    Loopy { outside: &[], class: "two_loop", stack: false, origin: 0x3000, n: 4, labels: &[("pa", 1), ("pb", 2)],
         src: "and r1 r1 #0\npa add r1 r1 #1\npb brnzp pa\nhalt\n" },
-    Loopy { class: "two_loop", stack: false, origin: 0x3000, n: 3, labels: &[("top", 0), ("nx", 1)],
+    Loopy { outside: &[], class: "two_loop", stack: false, origin: 0x3000, n: 3, labels: &[("top", 0), ("nx", 1)],
         src: "top add r1 r1 #1\nnx brnzp top\nhalt\n" },
-    Loopy { class: "two_loop", stack: true, origin: 0x0100, n: 5, labels: &[("far", 0x8203), ("near", 1)],
+    Loopy { outside: &[], class: "two_loop", stack: true, origin: 0x0100, n: 5, labels: &[("far", 0x8203), ("near", 1)],
         src: ".orig x0100\nld r0 kk\nnear jmp r0\nkk .fill x8303\n.blkw x8200\nfar add r1 r1 #1\nbrnzp far\n" },
-    Loopy { class: "sub_loop", stack: true, origin: 0x3000, n: 8, labels: &[("again", 2), ("f", 6), ("fr", 7)],
+    Loopy { outside: &[], class: "sub_loop", stack: true, origin: 0x3000, n: 8, labels: &[("again", 2), ("f", 6), ("fr", 7)],
         src: "and r4 r4 #0\nadd r4 r4 #3\nagain call f\nadd r4 r4 #-1\nbrp again\nhalt\nf add r1 r1 #1\nfr rets\n" },
+    // leaves its image: jumps over the loader's HALT into zeroed memory (NOPs) and runs on to xFE00;
+    // breakpoints there are on addresses that hold no statement
+    Loopy { outside: &[7, 9], class: "outside_image", stack: false, origin: 0xFDE0, n: 4, labels: &[("tail", 3), ("go", 2)],
+        src: ".orig xFDE0\nlea r1 tail\nadd r1 r1 #4\ngo jmp r1\ntail halt\n" },
 ];
 
 fn loopy_alphabet(p: &Loopy) -> Vec<Cmd> {
@@ -64,6 +70,15 @@ fn loopy_alphabet(p: &Loopy) -> Vec<Cmd> {
     v.push(Cmd::BreakAddLoc(Loc::Pc(1)));
     v.push(Cmd::BreakRemoveLoc(Loc::Pc(0)));
     v.push(Cmd::BreakAddLoc(Loc::Label(p.labels[0].0.to_string(), p.origin + p.labels[0].1, 1)));
+    for (k, o) in p.outside.iter().enumerate() {
+        let addr = p.origin + o;
+        if k % 2 == 0 {
+            v.push(Cmd::BreakAddLoc(Loc::Abs(addr)));
+        } else {
+            v.push(Cmd::BreakAddLoc(Loc::Label(p.labels[0].0.to_string(), p.origin + p.labels[0].1, (*o as i32) - (p.labels[0].1 as i32))));
+        }
+        v.push(Cmd::BreakRemoveLoc(Loc::Abs(addr)));
+    }
     v
 }
 
@@ -135,6 +150,10 @@ fn observe(out: &mut CaseOut, sess: &crate::dbgmon::Session, cmds: &[Cmd], kind:
             // arrived here by executing
             if let Some((_, predefined)) = s.bps.iter().find(|b| b.0 == s.pc) {
                 out.class(if *predefined { "pause_at_directive_break" } else { "pause_at_runtime_break" });
+                let o = sess.image.origin();
+                if s.pc.wrapping_sub(o) as usize > sess.image.words.len() {
+                    out.class("pause_at_break_outside_image");
+                }
                 if paused_at.iter().any(|(pc, f)| *pc == s.pc && *f < s.fetches) {
                     out.class("revisit_pause");
                     if kind == "self_loop" {
